@@ -19,9 +19,23 @@ def _rng(family, rseed, index):
   return random.Random(f'C07:{family}:{rseed}:{index}')
 
 
-def _klist(rng, kmax):
+def _klist(rng, kmax, styles=('asc',)):
+  """styles: 'asc' ascending distinct, 'unsorted' distinct but not ascending,
+  'dups' with a repeated k (any order). The result is aligned with the request."""
   size = rng.choice([1, 1, 2, 2, 3])
-  return sorted(rng.sample(range(1, kmax + 1), min(size, kmax)))
+  ks = sorted(rng.sample(range(1, kmax + 1), min(size, kmax)))
+  style = rng.choice(styles)
+  if style == 'unsorted' and len(ks) >= 2:
+    while ks == sorted(ks):
+      rng.shuffle(ks)
+  elif style == 'dups':
+    ks.insert(rng.randint(0, len(ks)), rng.choice(ks))
+    if rng.random() < 0.5:
+      rng.shuffle(ks)
+  return ks
+
+
+KLIST_STYLES = ('asc', 'asc', 'asc', 'unsorted', 'unsorted', 'dups')
 
 
 # ---------------------------------------------------------------------------
@@ -103,7 +117,7 @@ def gen_cls(rng):
       rng.shuffle(vocab)
       config['vocab'] = vocab
     if avg != 'samples' and rng.random() < (0.08 if avg == 'macro' else 0.45):
-      config['k_list'] = _klist(rng, 5)
+      config['k_list'] = _klist(rng, 5, KLIST_STYLES)
     config['pos_label'] = rng.choice([1, 0, 'y', used[0]])  # documented as ignored
     config['container'] = 'list' if multi else config['container']
   can_split = (it in ('binary', 'multiclass-indicator') or config['vocab']) and not config['k_list']
@@ -132,7 +146,54 @@ def _rankings(rng, n, alphabet):
   return y_true, y_pred
 
 
+def _empty_row_case(rng):
+  """Rankings where some query retrieved nothing (empty y_pred row) or has no
+  relevant item (empty y_true row); never both in the same row.
+
+  'alone': the rows with an empty ranking are put together at one end and the
+  batch split isolates them (a batch that holds nothing but empty rankings).
+  """
+  alphabet = rng.choice([INT_LABELS, STR_LABELS, CHAR_LABELS])
+  k_list = _klist(rng, 4) if rng.random() < 0.8 else None
+  kmax = max(k_list) if k_list else 1
+  long_rows = rng.random() < 0.7  # every non-empty ranking has >= max(k) items
+  which = rng.choice(['pred', 'pred', 'true', 'both'])
+  n = rng.choice([1, 2, 3, 4, 6, 8])
+  rows = []
+  for _ in range(n):
+    t = rng.sample(alphabet, rng.randint(1, 3))
+    lo = min(kmax, len(alphabet)) if long_rows else 1
+    p = rng.sample(alphabet, rng.randint(lo, min(max(lo, 6), len(alphabet))))
+    if rng.random() < 0.6 and not set(p) & set(t):
+      p[rng.randrange(len(p))] = t[0]
+    rows.append([t, p])
+  n_empty = rng.randint(1, max(1, n // 2))
+  kinds = []
+  for i in rng.sample(range(n), n_empty):
+    kind = which if which != 'both' else rng.choice(['pred', 'true'])
+    rows[i][0 if kind == 'true' else 1] = []
+    kinds.append(kind)
+  split = None
+  layout = rng.choice(['mixed', 'mixed', 'alone'])
+  if layout == 'alone' and n >= 2:
+    empties = [r for r in rows if not r[0] or not r[1]]
+    others = [r for r in rows if r[0] and r[1]]
+    if others:
+      if rng.random() < 0.5:
+        rows, split = empties + others, len(empties)
+      else:
+        rows, split = others + empties, len(others)
+  elif n >= 2 and rng.random() < 0.5:
+    split = rng.randint(1, n - 1)
+  config = {'k_list': k_list, 'input_type': 'multiclass-multioutput',
+            'split': split, 'empty_rows': layout}
+  return {'family': 'retr', 'config': config,
+          'input': {'y_true': [r[0] for r in rows], 'y_pred': [r[1] for r in rows]}}
+
+
 def gen_retr(rng):
+  if rng.random() < 0.15:
+    return _empty_row_case(rng)
   n = rng.choice([1, 2, 3, 4, 6, 8, 12])
   r = rng.random()
   config = {'k_list': None, 'input_type': 'multiclass-multioutput', 'split': None}
@@ -153,7 +214,7 @@ def gen_retr(rng):
     alphabet = alphabet[:rng.randint(3, len(alphabet))]
     y_true, y_pred = _rankings(rng, n, alphabet)
   if rng.random() < 0.8:
-    config['k_list'] = _klist(rng, 7)
+    config['k_list'] = _klist(rng, 7, KLIST_STYLES)
   if n >= 2 and rng.random() < 0.4 and not config.get('odd_labels'):
     config['split'] = rng.randint(1, n - 1)
   return {'family': 'retr', 'config': config,
@@ -164,12 +225,28 @@ def gen_thr(rng):
   n = rng.choice([1, 2, 3, 5, 8])
   alphabet = rng.choice([INT_LABELS, STR_LABELS])
   y_true, y_pred = _rankings(rng, n, alphabet)
-  y_prob = None
-  if rng.random() < 0.75:
-    y_prob = [[rng.randint(0, 16) / 16 for _ in row] for row in y_pred]
   m = rng.choice([1, 2, 3])
-  thresholds = sorted(rng.sample([i / 16 for i in range(0, 16)], m))
-  config = {'thresholds': thresholds, 'split': None}
+  if rng.random() < 0.45:
+    # Probabilities that coincide with a threshold, on a decimal grid whose
+    # points are not representable in float32 (nor exactly in float64).
+    den = rng.choice([10, 10, 20, 5, 100])
+    grid = [i / den for i in range(0, den + 1)]
+    thresholds = sorted(rng.sample(grid[:-1], m))
+    mode = 'ties'
+    def prob():
+      return rng.choice(thresholds) if rng.random() < 0.5 else rng.choice(grid)
+  else:
+    grid = [i / 16 for i in range(0, 17)]
+    thresholds = sorted(rng.sample(grid[:-1], m))
+    mode = 'dyadic'
+    def prob():
+      return rng.choice(grid)
+  y_prob = None
+  if rng.random() < 0.8:
+    y_prob = [[prob() for _ in row] for row in y_pred]
+  # container of each probability row: python floats, float64 / float32 array
+  config = {'thresholds': thresholds, 'split': None, 'mode': mode,
+            'prob_dtype': rng.choice(['list', 'list', 'float64', 'float32'])}
   if n >= 2 and rng.random() < 0.5:
     config['split'] = rng.randint(1, n - 1)
   return {'family': 'thr', 'config': config,
@@ -194,11 +271,25 @@ def _number(rng, kind):
     # mean far larger than the spread: a numerically naive variance
     # (E[x^2] - mean^2) loses ~7 digits here, a stable one loses none
     return 1e5 + rng.uniform(-5, 5)
+  if isinstance(kind, (list, tuple)):
+    # ('shift', offset, half_width): a large common offset, small spread
+    return kind[1] + rng.uniform(-kind[2], kind[2])
   return rng.uniform(-10, 10)
 
 
+def _big_offset(rng):
+  """Offset 1e6 .. 1e8 (either sign), spread 0.5 .. 50: timestamps, ids, cents."""
+  off = 10 ** rng.uniform(6, 8) * rng.choice([1, 1, 1, -1])
+  if rng.random() < 0.5:
+    off = float(round(off))
+  return ['shift', off, rng.choice([0.5, 2.0, 5.0, 50.0])]
+
+
 def _numeric_batches(rng, p_nan):
-  kind = rng.choice(['int', 'dyadic', 'float', 'big', 'offset', 'offset5', 'offset5'])
+  kind = rng.choice(['int', 'dyadic', 'float', 'big', 'offset', 'offset5', 'offset5',
+                     'shift', 'shift'])
+  if kind == 'shift':
+    kind = _big_offset(rng)
   nb = rng.choice([1, 1, 2, 3])
   ncol = rng.choice([0, 0, 1, 2, 3, 4])  # 0 -> 1-D batches
   nan_cols = set()
@@ -223,26 +314,53 @@ def gen_stats(rng):
   sub = rng.choice(['mean', 'meanvar', 'meanvar', 'var', 'minmax', 'hist', 'hist',
                     'counter', 'calib', 'calib'])
   if sub in ('mean', 'meanvar', 'var'):
+    if rng.random() < 0.12:
+      # integer containers (int32 / int64), magnitudes beyond sqrt(2**31)
+      dtype = rng.choice(['int32', 'int32', 'int64'])
+      lo, hi = rng.choice([(-2_000_000, 2_000_000), (46_342, 1_000_000),
+                           (1_000_000, 1_000_050), (-30, 30)])
+      ncol = rng.choice([0, 0, 2, 3])
+      batches = []
+      for _ in range(rng.choice([1, 2, 3])):
+        rows = rng.choice([1, 2, 3, 5, 8, 12])
+        if ncol:
+          batches.append([[rng.randint(lo, hi) for _ in range(ncol)] for _ in range(rows)])
+        else:
+          batches.append([rng.randint(lo, hi) for _ in range(rows)])
+      return {'family': 'stats', 'sub': sub, 'config': {'dtype': dtype},
+              'input': {'batches': batches}}
     p_nan = rng.choice([0.0, 0.0, 0.15, 0.5, 1.0 if rng.random() < 0.2 else 0.3])
     return {'family': 'stats', 'sub': sub, 'config': {},
             'input': {'batches': _numeric_batches(rng, p_nan)}}
   if sub == 'minmax':
-    score = 'len' if rng.random() < 0.3 else None
-    axis = None if score or rng.random() < 0.5 else 0
+    score = rng.choice([None, None, None, 'len', 'sum'])
+    # axis: None (all values), 0 (column-wise for 2-D batches, scalar for 1-D), -1 (1-D only)
+    axis = None if score else rng.choice([None, None, 0, 0, -1])
     nb = rng.choice([1, 2, 3])
     ncol = rng.choice([2, 3, 4])
     intlike = rng.random() < 0.6
-    def v():
-      return rng.randint(0, 30) if intlike else rng.randint(0, 400) / 8
+    sign = rng.choice(['nonneg', 'neg', 'neg', 'mixed', 'mixed'])
+    # columns that stay negative under 'mixed' (the others take both signs)
+    neg_cols = {j for j in range(ncol) if rng.random() < 0.4}
+    def v(j=None):
+      mag = rng.randint(0, 30) if intlike else rng.randint(0, 400) / 8
+      if sign == 'nonneg':
+        return mag
+      if sign == 'neg' or (j is not None and j in neg_cols):
+        return -(mag + (1 if intlike else 0.125))
+      return mag if rng.random() < 0.5 else -mag
+    two_d = axis == 0 and rng.random() < 0.7 or (
+        axis is None and not score and rng.random() < 0.5)
     batches = []
     for _ in range(nb):
       rows = rng.randint(1, 6)
-      if axis == 0 or (axis is None and not score and rng.random() < 0.5):
-        batches.append([[v() for _ in range(ncol)] for _ in range(rows)])
+      if two_d:
+        batches.append([[v(j) for j in range(ncol)] for _ in range(rows)])
       else:
         batches.append([v() for _ in range(rows)])
     return {'family': 'stats', 'sub': 'minmax',
-            'config': {'axis': axis, 'score': score}, 'input': {'batches': batches}}
+            'config': {'axis': axis, 'score': score, 'sign': sign},
+            'input': {'batches': batches}}
   if sub == 'hist':
     mode = rng.choice(['pow2', 'odd', 'edges'])
     if mode == 'pow2':
@@ -318,7 +436,7 @@ TEXT_FRAGMENTS = ['ab', 'xyx', 'xyxyx', 'aaa', 'a.a', 'b b', ' ', 'mmm', 'A', '(
 
 def gen_misc(rng):
   sub = rng.choice(['r2tjur', 'r2tjur_rel', 'rreg', 'rreg', 'spd', 'ngrams', 'ngrams',
-                    'patterns', 'mathutils', 'flip', 'xent', 'topkacc'])
+                    'patterns', 'mathutils', 'flip', 'xent', 'xent01', 'topkacc'])
   if sub in ('r2tjur', 'r2tjur_rel'):
     nb = rng.choice([1, 2, 3])
     p1 = rng.choice([0.0, 0.3, 0.5, 0.8, 1.0])
@@ -333,26 +451,72 @@ def gen_misc(rng):
   if sub == 'rreg':
     nb = rng.choice([1, 2, 3])
     ncol = rng.choice([0, 0, 1, 2, 3])
-    const_col = rng.randrange(ncol) if ncol and rng.random() < 0.2 else None
-    const_1d = ncol == 0 and rng.random() < 0.1
-    cval = rng.randint(-64, 64) / 8
+    data = rng.choice(['grid', 'grid', 'grid', 'offset', 'offset', 'int32'])
+    config = {'center': rng.random() < 0.6, 'data': data}
     corr = rng.choice([0.0, 0.5, 1.0, -1.0])
-    batches = []
-    for _ in range(nb):
-      m = rng.randint(2, 9)
-      y = [rng.randint(-64, 64) / 8 for _ in range(m)]
-      def xv(yv, j=None):
+    if data == 'grid':
+      const_col = rng.randrange(ncol) if ncol and rng.random() < 0.2 else None
+      const_1d = ncol == 0 and rng.random() < 0.1
+      cval = rng.randint(-64, 64) / 8
+      def yv():
+        return rng.randint(-64, 64) / 8
+      def xv(y, j=None):
         if const_1d or (j is not None and j == const_col):
           return cval
         if abs(corr) == 1.0:
-          return corr * yv
-        return yv if rng.random() < corr else rng.randint(-64, 64) / 8
+          return corr * y
+        return y if rng.random() < corr else rng.randint(-64, 64) / 8
+    elif data == 'offset':
+      # features (and sometimes the target) with a large common offset and a
+      # small spread; integer-valued 50% of the time. No constant columns.
+      xk = [_big_offset(rng) for _ in range(max(ncol, 1))]
+      yk = _big_offset(rng) if rng.random() < 0.3 else ['shift', 0.0, rng.choice([1.0, 8.0])]
+      whole = rng.random() < 0.5
+      def q(val):
+        return float(round(val)) if whole else val
+      if whole:
+        for kd in xk + [yk]:
+          kd[2] = max(kd[2], 5.0)
+      def yv():
+        return q(_number(rng, yk))
+      def xv(y, j=None):
+        kd = xk[j or 0]
+        if rng.random() < abs(corr):
+          # linear in y (up to the integer rounding), sign of corr
+          return q(kd[1] + (y - yk[1]) * kd[2] / yk[2] * (1 if corr >= 0 else -1))
+        return q(_number(rng, kd))
+    else:
+      # integer features in an int32 array, magnitudes beyond sqrt(2**31) = 46341
+      lo, hi = rng.choice([(-2_000_000, 2_000_000), (46_342, 1_000_000),
+                           (-300_000, -46_342), (0, 150_000)])
+      config['y_int32'] = rng.random() < 0.3
+      config['int_dtype'] = rng.choice(['int32', 'int32', 'int64'])
+      def yv():
+        return (float(rng.randint(lo, hi)) if config['y_int32']
+                else rng.randint(-64, 64) / 8)
+      def xv(y, j=None):
+        if abs(corr) == 1.0 and config['y_int32']:
+          return corr * y
+        return float(rng.randint(lo, hi))
+    batches = []
+    for _ in range(nb):
+      m = rng.randint(2, 9)
+      y = [yv() for _ in range(m)]
       if ncol:
-        x = [[xv(yv, j) for j in range(ncol)] for yv in y]
+        x = [[xv(v_, j) for j in range(ncol)] for v_ in y]
       else:
-        x = [xv(yv) for yv in y]
+        x = [xv(v_) for v_ in y]
       batches.append([x, y])
-    return {'family': 'misc', 'sub': 'rreg', 'config': {'center': rng.random() < 0.6},
+    if data == 'offset':
+      # every column needs a spread that is far above the float resolution
+      cols = list(zip(*[r for b in batches for r in b[0]])) if ncol else [
+          [v_ for b in batches for v_ in b[0]]]
+      ys = [v_ for b in batches for v_ in b[1]]
+      if any(max(c) - min(c) < 0.25 for c in cols + [ys]):
+        config['data'] = 'grid'
+        batches = [[[[1.0 * i * (j + 1) for j in range(ncol)] for i in range(3)]
+                    if ncol else [0.0, 1.0, 3.0], [0.0, 2.0, 1.0]]]
+    return {'family': 'misc', 'sub': 'rreg', 'config': config,
             'input': {'batches': batches}}
   if sub == 'spd':
     nb = rng.choice([1, 2])
@@ -421,6 +585,27 @@ def gen_misc(rng):
     return {'family': 'misc', 'sub': 'xent', 'config': {},
             'input': {'y_true': y_true,
                       'y_pred': [rng.randint(1, 63) / 64 for _ in range(m)]}}
+  if sub == 'xent01':
+    # categorical cross entropy with probabilities on the closed interval:
+    # exact 0.0 / 1.0 entries (one-hot predictions, impossible classes)
+    m = rng.randint(1, 6)
+    y_true = [0] * m
+    for i in rng.sample(range(m), 1 if rng.random() < 0.8 else rng.randint(1, m)):
+      y_true[i] = 1
+    style = rng.choice(['onehot', 'zeros', 'zeros', 'decimal'])
+    if style == 'onehot':
+      hot = rng.randrange(m)
+      y_pred = [1.0 if i == hot else 0.0 for i in range(m)]
+    elif style == 'zeros':
+      y_pred = [0.0 if rng.random() < 0.4 else rng.randint(1, 16) / 16 for _ in range(m)]
+    else:
+      parts = [rng.randint(0, 5) for _ in range(m)]
+      tot = sum(parts) or 1
+      y_pred = [p / tot for p in parts]
+    if not any(y_pred):
+      y_pred[rng.randrange(m)] = 1.0
+    return {'family': 'misc', 'sub': 'xent01', 'config': {},
+            'input': {'y_true': y_true, 'y_pred': y_pred}}
   # topkacc
   m = rng.randint(2, 6)
   scores = [s / 16 for s in rng.sample(range(1, 32), m)]
@@ -440,7 +625,36 @@ def gen_misc(rng):
                     'k': rng.randint(1, m)}}
 
 
-GENERATORS = {'cls': gen_cls, 'retr': gen_retr, 'thr': gen_thr,
+def gen_clsbig(rng):
+  """A classification data set with 150k-400k examples, described by its
+  sampling parameters only (expanded vectorised by c07_check_large.expand)."""
+  it = rng.choice(['binary', 'binary', 'multiclass-indicator', 'multiclass'])
+  n = rng.randint(150_000, 400_000)
+  config = {'input_type': it, 'n': n, 'nbatch': rng.choice([1, 4, 16]),
+            'vocab': None, 'pos_label': 1}
+  inp = {'data_seed': rng.getrandbits(32), 'agree': rng.choice([0.5, 0.7, 0.9, 0.97])}
+  if it == 'binary':
+    neg, pos = rng.choice([(0, 1), (-1, 1), (2, 7), (False, True)])
+    inp['labels'] = [neg, pos]
+    inp['class_p'] = [rng.choice([0.2, 0.35, 0.5, 0.5, 0.65, 0.8])]
+    inp['class_p'].insert(0, 1 - inp['class_p'][0])
+    config['average'] = rng.choice(['binary', 'binary', 'micro', 'macro'])
+    config['pos_label'] = pos if rng.random() < 0.8 else neg
+  else:
+    ncls = rng.choice([2, 3, 4])
+    w = [rng.choice([1, 1, 2, 3]) for _ in range(ncls)]
+    inp['class_p'] = [x / sum(w) for x in w]
+    config['average'] = rng.choice(['micro', 'macro'])
+    if it == 'multiclass':
+      labels = rng.sample(range(10), ncls)
+      inp['labels'] = labels
+      config['vocab'] = labels[::-1] if rng.random() < 0.5 else list(labels)
+    else:
+      inp['labels'] = list(range(ncls))
+  return {'family': 'clsbig', 'config': config, 'input': inp}
+
+
+GENERATORS = {'clsbig': gen_clsbig, 'cls': gen_cls, 'retr': gen_retr, 'thr': gen_thr,
               'stats': gen_stats, 'misc': gen_misc}
 
 
